@@ -396,7 +396,7 @@ func (x *Exec) binop(fr *Frame, st *State, ins ssa.Instruction, op token.Token, 
 			case signed:
 				o = "bvsrem"
 			default:
-				o = "bvurem"
+				return TV{T: x.urem(A, B), Typ: tres}, nil
 			}
 			return TV{T: bvBin(o, A, B), Typ: tres}, nil
 		case token.AND:
